@@ -119,7 +119,11 @@ void *rtr_fsm_start(struct rtr_socket *rtr_socket)
 
 	pthread_setcancelstate(PTHREAD_CANCEL_DISABLE, &oldcancelstate);
 
+#if defined(RTRLIB_VERIF) && defined(RTRLIB_VERIF_FSM_KEEP_STATE)
+	/* verification hook: enter the state machine loop in the socket's current state */
+#else
 	rtr_socket->state = RTR_CONNECTING;
+#endif
 	while (1) {
 		if (rtr_socket->state == RTR_CONNECTING) {
 			RTR_DBG1("State: RTR_CONNECTING");
